@@ -31,6 +31,8 @@ package ply
 //@   requires scanner_token_limit: len(line) < 2147483647
 //@   returns offset, err
 //@   ensures consumed_tokens_exist: err == nil ==> 1 <= offset && offset <= len(line)
+//@   ensures whole_list_present: err == nil ==> lpr.lastReadListSize >= 0 && offset == lpr.lastReadListSize + 1 && len(lpr.buf) >= lpr.lastReadListSize
+//@   ensures list_is_these_tokens: err == nil ==> forall j int :: 0 <= j && j < lpr.lastReadListSize ==> lpr.buf[j] == old(line[1 + j])
 
 // binary list property (face indices / texture coordinates): the count and the payload are taken from the
 // stream with io.ReadFull; err == nil means every byte of both existed.  consumed(in) is the ghost number of
